@@ -36,6 +36,10 @@ def run(ctx: Ctx) -> None:
     race(ctx, "R-C06-ONE")  # a run that completed must not also be returned to the queue: that would leave two successors
     from .delay import whole_duration_rule
 
+    from .C05 import rounding
+
+    with ctx.as_rule("R-C06-FIRST"):
+        rounding(ctx, "R-C06-FIRST")  # the first run is not delivered before deferred_until by a rounding of the due time or of the consumer's clock
     whole_duration_rule(ctx, "R-C06-FIRST")  # a due time carried as timedelta.seconds loses whole days: the first run would come days early
 
 
